@@ -27,15 +27,26 @@ var histories = [][]opT{
 	{{"apply", 2}, {"delete-temp", 0}, {"apply", 6}, {"apply", 0}, {"apply", 0}, {"apply", 0}, {"delete", 0}, {"apply", 4}},
 }
 
+// largeHistory has block steps whose single write batch exceeds 4 MiB (shape 8: 400 transactions of 13 KiB), applied,
+// then moved to the temp table. Its crash points are enumerated in coarse mode (crashfs): pebble's log writer
+// splits such a write into Write calls in a timing-dependent way, so the calls themselves are not crash points;
+// every other mutation is, and partially written data is covered by byte budgets for the last interval.
+var largeHistory = []opT{{"apply", 1}, {"apply", 8}, {"apply", 0}, {"delete-temp", 0}, {"delete-temp", 0}}
+
 type caseT struct {
 	History int    `json:"history"`
 	CrashAt int    `json:"crash_at_mutation"`
 	Policy  string `json:"policy"`
 	Op      int    `json:"during_op"`
+	Tail    int    `json:"tail_bytes,omitempty"`
 }
 
-func cfgFor(fs *crashfs.Session, recover bool, gts uint32) node.Config {
+func cfgFor(fs *crashfs.Session, recover bool, gts uint32, coarse bool) node.Config {
 	cfg := node.MenuConfig()
+	if coarse {
+		cfg.MemTable = 64 << 20 // a 5 MiB batch stays an ordinary batch: no background flush
+		cfg.MaxPayload = 6 << 20
+	}
 	cfg.KeepEvents = 1
 	cfg.FS = fs
 	cfg.RecoverApp = recover
@@ -110,20 +121,28 @@ func main() {
 	r := vlib.Start("C13", "fault_enumeration", 4*time.Minute, 20*time.Minute)
 	r.Assume("crash model: the process dies just before the k-th file-system mutation (create, write, sync, rename, remove, link, mkdir, directory sync) issued by pebble; unsynced data is then (a) lost entirely incl. unsynced directory entries, (b) entirely on disk, (c) on disk with the last write torn in half")
 	r.Assume("the application's own durability is out of scope: after the crash the mock application is put at the state root of the recovered tip")
-	hs := histories
+	hs := append(append([][]opT{}, histories...), largeHistory)
+	large := len(hs) - 1
+	r.Assume("history with write batches above 4 MiB (coarse mode): crash points are all file-system mutations other than Write; for the data written since the previous crash point three outcomes are enumerated per point (none of it, all of it, the first b bytes for the listed fractions b of its length)")
 	type job struct {
 		hi, k  int
 		policy string
 		refs   []string
 		bounds []int
 		gts    uint32
+		coarse bool
+		tail   int
 	}
 	jobs := []job{}
 	for hi, h := range hs {
 		// reference run: state after each completed op and the mutation count at each op boundary
 		w := crashfs.NewWorld()
+		coarse := hi == large
 		sess := w.NewSession(0, false)
-		n, err := node.New(cfgFor(sess, false, 0))
+		if coarse {
+			sess = w.NewCoarseSession(0, -1)
+		}
+		n, err := node.New(cfgFor(sess, false, 0, coarse))
 		if err != nil {
 			panic(err)
 		}
@@ -145,8 +164,21 @@ func main() {
 			r.Sample(map[string]interface{}{"history": hi, "ops": h, "fs_mutations": N, "first_mutations": sess.Log[:min(12, len(sess.Log))]})
 		}
 		for k := 1; k <= N+1; k++ {
+			if coarse {
+				jobs = append(jobs, job{hi, k, "lost", refs, bounds, gts, true, -1}, job{hi, k, "survived", refs, bounds, gts, true, -1})
+				if k <= N && sess.Unsynced[k-1] >= 2 {
+					fr := []int{4}
+					if r.Thorough() {
+						fr = []int{1, 2, 3, 4, 5, 6, 7}
+					}
+					for _, f := range fr {
+						jobs = append(jobs, job{hi, k, fmt.Sprintf("first-%d-eighths", f), refs, bounds, gts, true, sess.Unsynced[k-1] * f / 8})
+					}
+				}
+				continue
+			}
 			for _, p := range []string{"lost", "survived", "torn"} {
-				jobs = append(jobs, job{hi, k, p, refs, bounds, gts})
+				jobs = append(jobs, job{hi, k, p, refs, bounds, gts, false, -1})
 			}
 		}
 	}
@@ -170,7 +202,10 @@ func main() {
 		}
 		w := crashfs.NewWorld()
 		sess := w.NewSession(j.k, j.policy == "torn")
-		n, err := node.New(cfgFor(sess, false, j.gts))
+		if j.coarse {
+			sess = w.NewCoarseSession(j.k, j.tail)
+		}
+		n, err := node.New(cfgFor(sess, false, j.gts, j.coarse))
 		completed := 0
 		if err == nil {
 			for _, o := range hs[j.hi] {
@@ -189,7 +224,7 @@ func main() {
 					break
 				}
 				if perr != "" {
-					r.Violation("history-op-failed-without-crash", perr, caseT{j.hi, j.k, j.policy, completed})
+					r.Violation("history-op-failed-without-crash", perr, caseT{j.hi, j.k, j.policy, completed, j.tail})
 					return
 				}
 				completed++
@@ -200,11 +235,11 @@ func main() {
 			w.LoseUnsynced()
 		}
 		r.Add("evaluations", 1)
-		c := caseT{j.hi, j.k, j.policy, completed}
+		c := caseT{j.hi, j.k, j.policy, completed, j.tail}
 		// restart
 		s2 := w.NewSession(0, false)
 		var n2 *node.Node
-		if p := vlib.Catch(func() { n2, err = node.New(cfgFor(s2, true, j.gts)) }); p != "" || err != nil {
+		if p := vlib.Catch(func() { n2, err = node.New(cfgFor(s2, true, j.gts, j.coarse)) }); p != "" || err != nil {
 			r.Violation(fmt.Sprintf("restart-fails:h%d", j.hi), fmt.Sprintf("node does not restart after a crash before mutation %d (%s, during op %d): %v %s", j.k, j.policy, completed, err, p), c)
 			return
 		}
